@@ -619,5 +619,15 @@ class CallProxy (object):
       return self.method(o, *args, **kw)
     print("callProxy object is gone!")
     raise ReventError("callProxy object is gone!")
+  def __eq__ (self, other):
+    # Equal to the bound method we stand for, so that removeListener(handler)
+    # finds weak subscriptions too
+    if isinstance(other, CallProxy): return self is other
+    if self.obj is None: return False
+    return (self.obj() is getattr(other, '__self__', self)
+            and self.method is getattr(other, '__func__', None))
+  def __ne__ (self, other):
+    return not self.__eq__(other)
+  __hash__ = object.__hash__
   def __str__ (self):
     return "<CallProxy for " + self.name + ">"
